@@ -191,6 +191,9 @@ func parent(p *eng.Prop) int {
 	}
 	dl = envInt("VERIF_DEADLINE_S", dl)
 	deadline := start.Add(time.Duration(dl) * time.Second)
+	if p.Prepare != nil {
+		p.Prepare(*fTier)
+	}
 	scratch, err := os.MkdirTemp("", "vcheck-"+p.ID+"-")
 	if err != nil {
 		fmt.Fprintln(os.Stderr, err)
